@@ -241,7 +241,8 @@ static int32 psParseIntegrityMode(const unsigned char **buf, int32 totLen)
     if (oi == OID_PKCS7_DATA)
     {
         /* Data ::= OCTET STRING */
-        if (*p++ != (ASN_CONTEXT_SPECIFIC | ASN_CONSTRUCTED))
+        if ((end - p) < 1 ||
+            *p++ != (ASN_CONTEXT_SPECIFIC | ASN_CONSTRUCTED))
         {
             return PS_PARSE_FAIL;
         }
@@ -249,7 +250,7 @@ static int32 psParseIntegrityMode(const unsigned char **buf, int32 totLen)
         {
             return PS_PARSE_FAIL;
         }
-        if ((*p++ != ASN_OCTET_STRING) ||
+        if ((end - p) < 1 || (*p++ != ASN_OCTET_STRING) ||
             getAsnLength(&p, (int32) (end - p), &totcontentlen) < 0)
         {
             psTraceCrypto("Couldn't parse data from ContentInfo\n");
@@ -793,11 +794,13 @@ static int32 parseSafeContents(psPool_t *pool, unsigned char *password,
             return rc;
         }
         safeLen = (unsigned char *) p + tmpint;
-        if (*p++ != (ASN_CONTEXT_SPECIFIC | ASN_CONSTRUCTED))
+        if ((end - p) < 1 ||
+            *p++ != (ASN_CONTEXT_SPECIFIC | ASN_CONSTRUCTED))
         {
             return PS_PARSE_FAIL;
         }
-        if ((rc = getAsnLength(&p, (int32) (end - p), &tmplen)) < 0)
+        if ((rc = getAsnLength(&p, (int32) (end - p), &tmplen)) < 0 ||
+            (uint32) (end - p) < tmplen)
         {
             return PS_PARSE_FAIL;
         }
@@ -834,7 +837,8 @@ static int32 parseSafeContents(psPool_t *pool, unsigned char *password,
                 psTraceIntCrypto("Unsupported CertBag type %d\n", certoi);
                 return PS_UNSUPPORTED_FAIL;
             }
-            if (*p++ != (ASN_CONTEXT_SPECIFIC | ASN_CONSTRUCTED))
+            if ((end - p) < 1 ||
+                *p++ != (ASN_CONTEXT_SPECIFIC | ASN_CONSTRUCTED))
             {
                 return PS_PARSE_FAIL;
             }
@@ -842,8 +846,9 @@ static int32 parseSafeContents(psPool_t *pool, unsigned char *password,
             {
                 return rc;
             }
-            if ((*p++ != ASN_OCTET_STRING) ||
-                getAsnLength(&p, (int32) (end - p), &tmplen) < 0)
+            if ((end - p) < 1 || (*p++ != ASN_OCTET_STRING) ||
+                getAsnLength(&p, (int32) (end - p), &tmplen) < 0 ||
+                (uint32) (end - p) < tmplen)
             {
                 psTraceCrypto("Couldn't extract X509 CertBag\n");
                 return PS_FAILURE;
@@ -989,7 +994,8 @@ static int32 psParseAuthenticatedSafe(psPool_t *pool, psX509Cert_t **cert,
         if (oi == OID_PKCS7_ENCRYPTED_DATA)
         {
             /* password protected mode */
-            if (*p++ != (ASN_CONTEXT_SPECIFIC | ASN_CONSTRUCTED))
+            if ((end - p) < 1 ||
+                *p++ != (ASN_CONTEXT_SPECIFIC | ASN_CONSTRUCTED))
             {
                 psTraceCrypto("Initial pkcs7 encrypted data parse failure\n");
                 return PS_PARSE_FAIL;
@@ -1055,7 +1061,8 @@ static int32 psParseAuthenticatedSafe(psPool_t *pool, psX509Cert_t **cert,
         else if (oi == OID_PKCS7_DATA)
         {
             /* Data ::= OCTET STRING */
-            if (*p++ != (ASN_CONTEXT_SPECIFIC | ASN_CONSTRUCTED))
+            if ((end - p) < 1 ||
+                *p++ != (ASN_CONTEXT_SPECIFIC | ASN_CONSTRUCTED))
             {
                 psTraceCrypto("Initial pkcs7 data parse failure\n");
                 return PS_PARSE_FAIL;
@@ -1064,8 +1071,10 @@ static int32 psParseAuthenticatedSafe(psPool_t *pool, psX509Cert_t **cert,
             {
                 return PS_PARSE_FAIL;
             }
-            if (*p++ != ASN_OCTET_STRING || getAsnLength(&p,
-                    (int32) (end - p), &tmplen) < 0)
+            if ((end - p) < 1 ||
+                *p++ != ASN_OCTET_STRING || getAsnLength(&p,
+                    (int32) (end - p), &tmplen) < 0 ||
+                (uint32) (end - p) < tmplen)
             {
                 return PS_PARSE_FAIL;
             }
@@ -1248,8 +1257,9 @@ int32 psPkcs12ParseMem(psPool_t *pool, psX509Cert_t **cert, psPubKey_t *privKey,
             psTraceCrypto("Algorithm password integrity parse failure\n");
             goto ERR_PARSE;
         }
-        if ((*p++ != ASN_OCTET_STRING) ||
-            getAsnLength(&p, (int32) (end - p), &tmplen) < 0)
+        if ((end - p) < 1 || (*p++ != ASN_OCTET_STRING) ||
+            getAsnLength(&p, (int32) (end - p), &tmplen) < 0 ||
+            (uint32) (end - p) < tmplen)
         {
             psTraceCrypto("Octet digest password integrity parse failure\n");
             rc = PS_PARSE_FAIL;
@@ -1257,8 +1267,9 @@ int32 psPkcs12ParseMem(psPool_t *pool, psX509Cert_t **cert, psPubKey_t *privKey,
         }
         Memcpy(digest, p, tmplen);
         p += tmplen;
-        if ((*p++ != ASN_OCTET_STRING) ||
-            getAsnLength(&p, (int32) (end - p), &tmplen) < 0)
+        if ((end - p) < 1 || (*p++ != ASN_OCTET_STRING) ||
+            getAsnLength(&p, (int32) (end - p), &tmplen) < 0 ||
+            (uint32) (end - p) < tmplen)
         {
             psTraceCrypto("Octet macSalt password integrity parse failure\n");
             rc = PS_PARSE_FAIL;
